@@ -251,6 +251,8 @@ func main() {
 	switch flag.Arg(0) {
 	case "c38":
 		c38(*seed, *n)
+	case "c38wired":
+		c38wired(*seed, *n)
 	case "c07":
 		c07(*seed, *n)
 	case "c14":
